@@ -674,7 +674,9 @@ def transpose (P : Params) (d : OpDesc) : R := do
   let ps ← perm.dims
   -- `perm.values[i]` is only evaluated on the paths below (TypeError when the values are None)
   let pv (i : Int) : Except String Int := do pyIdx (← perm.intVals) i
-  if shape.length == 2 then return true
+  -- (repair C01-46: rank 2 is accepted for the constant permutation [1, 0] only)
+  if shape.length == 2 && perm.hasValues then
+    if (← perm.intVals) == [1, 0] then return true
   if ps == [3] then
     if (← pv 0) == 1 && (← pv 1) == 0 then return true
     if (← pyIdx shape 0) == 1 then
@@ -871,13 +873,21 @@ def axis_masks (P : Params) (d : OpDesc) : R := do
 
 def bitSet (mask : Int) (i : Nat) : Bool := (mask.toNat / 2 ^ i) % 2 == 1
 
-def sliceOffsets (shape : List Int) (vals : List Int) (mask : Int) (isBegin : Bool) : Except String (List Int) :=
-  (List.range shape.length).mapM fun idx => do
-    let dim := shape.getD idx 0
-    if !(bitSet mask idx) then
-      let v ← pyIdx vals idx
-      return if v < 0 then v + dim else v
-    else return if isBegin then 0 else dim
+/-- `TFLiteSemantic._get_slice_offsets` (with repair C01-45: an index that still lies outside the dimension after the
+    negative-index conversion is clamped to it).  `vals`, `mask` and `newAxis` are indexed by position in the slice
+    specification; a new-axis position consumes no input dimension; input dimensions beyond the specification keep the
+    whole range. -/
+def sliceOffsets (shape : List Int) (vals : List Int) (mask newAxis : Int) (isBegin : Bool) : List Int :=
+  let init : List Int := if isBegin then shape.map (fun _ => 0) else shape
+  let step (st : Nat × List Int) (sv : Int × Nat) : Nat × List Int :=
+    if bitSet newAxis sv.2 then st
+    else if st.1 ≥ shape.length then st
+    else if !(bitSet mask sv.2) then
+      let dim := shape.getD st.1 0
+      let w := if sv.1 < 0 then sv.1 + dim else sv.1
+      (st.1 + 1, st.2.set st.1 (min (max w 0) dim))
+    else (st.1 + 1, st.2)
+  (vals.zipIdx.foldl step (0, init)).2
 
 def slice_ranges (P : Params) (d : OpDesc) : R := do
   match d.inputs with
@@ -886,9 +896,10 @@ def slice_ranges (P : Params) (d : OpDesc) : R := do
     let shrink ← attrInt! d n!"shrink_axis_mask"
     let bm ← attrInt! d n!"begin_mask"
     let em ← attrInt! d n!"end_mask"
-    if shrink < 0 ∨ bm < 0 ∨ em < 0 then .error "unmodelled:negative-mask" else
-    let ob ← sliceOffsets shape (← b.intVals) bm true
-    let oe ← sliceOffsets shape (← e.intVals) em false
+    let na ← attrInt! d n!"new_axis_mask"
+    if shrink < 0 ∨ bm < 0 ∨ em < 0 ∨ na < 0 then .error "unmodelled:negative-mask" else
+    let ob := sliceOffsets shape (← b.intVals) bm na true
+    let oe := sliceOffsets shape (← e.intVals) em na false
     return (List.range shape.length).all fun i =>
       bitSet shrink i || decide (oe.getD i 0 > ob.getD i 0)
   | _ => exc
